@@ -157,7 +157,7 @@ def _work(args):
         obs = scenes.run_scene(rows, prms)
     except Exception as e:  # harness problem, not the implementation's
         return {'meta': meta, 'harness_error': f'{type(e).__name__}: {e}'}
-    out = {'meta': meta, 'exc': obs['exc'], 'stage': obs['stage'], 'exc_msg': obs.get('exc_msg'),
+    out = {'meta': meta, 'exc': obs['exc'], 'stage': obs['stage'], 'exc_msg': obs.get('exc_msg'), 'eff_mismatch': obs.get('eff_mismatch'),
            'stats': scenes.scene_stats(obs), 'reqs': {}, 'missing': obs['trace'].missing,
            'digest': hashlib.sha1(repr((rows, sorted(prms.items(), key=str))).encode()).hexdigest()[:16],
            'nrows': len(rows), 'prms': prms}
@@ -208,6 +208,8 @@ def run_tables(chk, prop, n_scenes, families=FAMILIES):
                          'messages': res.get('msgs')} if task[1] < 2 else None)
         if res['missing']:
             chk.mismatch('wrapper targets missing', str(res['missing']), replay)
+        if res.get('eff_mismatch'):
+            chk.mismatch('chunk.prms = the parameters that were requested', f"differs in {res['eff_mismatch']}", replay)
         if res['exc']:
             chk.count('scene_raised_' + res['exc'])
             chk.mismatch('metarize/metar_msg model = implementation (the implementation raised on an accepted scene)',
